@@ -38,6 +38,7 @@ import (
 
 	sio "github.com/karagenc/socket.io-go"
 
+	"sioverif/internal/portlock"
 	"sioverif/internal/rawpeer"
 	"sioverif/internal/refcodec"
 	"sioverif/internal/rig"
@@ -108,6 +109,7 @@ type gate struct {
 
 	mu      sync.Mutex
 	l       net.Listener
+	hold    func() // non-nil while the listener is down: keeps the port reserved
 	mode    int
 	conns   map[net.Conn]struct{}
 	stalled []net.Conn
@@ -117,7 +119,7 @@ type gate struct {
 }
 
 func newGate(target string) (*gate, error) {
-	l, err := net.Listen("tcp", "127.0.0.1:0")
+	l, err := portlock.Listen("127.0.0.1:0")
 	if err != nil {
 		return nil, err
 	}
@@ -204,10 +206,17 @@ func (g *gate) cutAll() {
 }
 
 // listenerDown closes the listener (connection refused from now on) and cuts every connection.
+// The port stays reserved (portlock.Hold): trials run in parallel, and a port that is really free
+// while its server is "down" gets handed to the gate of another trial.
 func (g *gate) listenerDown() {
 	g.mu.Lock()
 	l := g.l
 	g.l = nil
+	if l != nil && g.hold == nil {
+		if rel, err := portlock.Hold(g.addr); err == nil {
+			g.hold = rel
+		}
+	}
 	g.mu.Unlock()
 	if l != nil {
 		l.Close()
@@ -220,7 +229,7 @@ func (g *gate) listenerUp() error {
 	var l net.Listener
 	var err error
 	for i := 0; i < 150; i++ {
-		l, err = net.Listen("tcp", g.addr)
+		l, err = portlock.Listen(g.addr)
 		if err == nil {
 			break
 		}
@@ -231,6 +240,10 @@ func (g *gate) listenerUp() error {
 	}
 	g.mu.Lock()
 	g.l = l
+	if g.hold != nil {
+		g.hold()
+		g.hold = nil
+	}
 	g.mu.Unlock()
 	go g.acceptLoop(l)
 	return nil
@@ -255,6 +268,10 @@ func (g *gate) close() {
 	g.closed = true
 	l := g.l
 	g.l = nil
+	if g.hold != nil {
+		g.hold()
+		g.hold = nil
+	}
 	g.mu.Unlock()
 	if l != nil {
 		l.Close()
